@@ -248,7 +248,14 @@ fn search(ctx: &'static Ctx, len: u32, depth: usize, full: bool, cap: usize) -> 
                             rep,
                         );
                     }
-                    if img != m.0 {
+                    // an empty slice pushed through the sink pushes no byte: whether that still counts as an append
+                    // (Length rewritten) is not fixed by the property, so both outcomes are accepted
+                    let alt_ok = matches!(a, SOp::SinkVec(v) if v.is_empty()) && {
+                        let mut m2 = Model(m.0.clone());
+                        m2.append(&[]);
+                        img == m2.0
+                    };
+                    if img != m.0 && !alt_ok {
                         ok = ctx.violation_sized(
                             &format!("sdt:{}:{}", k, if refused { "refusal-changed-table" } else { "image" }),
                             ops.len() as u64,
